@@ -91,7 +91,7 @@ impl Property for C08 {
         "(P) ASTs obtained by parsing generated text over the full grammar (items, metas, consts, functions, every statement and expression form, int literals in every radix incl. 2^31..2^32-1, float spellings incl. subnormals/rad()/f-suffix, strings with escapes and multi-byte text, difficulty switches with holes, pseudo-args); (D) ASTs produced by the decompiler from generated instruction streams (every IntFormat via signature attributes, every f32 class by bit pattern, strings, unknown signatures -> @blob/@mask, difficulty labels/switches, jumps, time labels); for each AST and each width: printed text parses, equals the AST (plus literal bit patterns), printing is idempotent; for D the script is the same at every width as at width 1000; non-trivial = some width changed the line breaking"
     }
     fn tape_len(&self, tier: Tier) -> usize { tier.pick(300, 500) }
-    fn cases(&self, tier: Tier) -> u32 { tier.pick(1500, 30000) }
+    fn cases(&self, tier: Tier) -> u32 { tier.pick(60000, 1000000) }
     fn required_labels(&self, _tier: Tier) -> Vec<&'static str> { vec!["P", "D", "wrapped", "feat:meta", "feat:function", "feat:diff_switch", "feat:pseudo_args", "feat:ternary", "feat:unary_minus", "feat:hex", "feat:subnormal", "feat:escapes", "feat:multibyte_string", "D:negative_literal", "D:blob", "D:float_classes"] }
 
     fn generate(&self, tape: &mut Tape, _tier: Tier, known: &Known) -> Value {
